@@ -146,6 +146,32 @@ def search(ctx, focus=(), deep=1):
                 for i in sorted(set(x for x in positions if 0 < x < n - 2)):
                     corrupted.append(('drop symbol at %d' % i, [intact[:i] + intact[i + 2:]]))
                     corrupted.append(('append symbol at %d' % i, [intact[:i] + intact[i:i + 2] + intact[i:]]))
+                # symbol-level substitution on the frame itself (covers encoders that pass `.timings` positionally, where no
+                # keyword field can be rebuilt): every data symbol replaced by every other symbol of the burst table
+                bt = [list(b) for b in d._bursts if isinstance(b, (list, tuple)) and len(b) == 2 and all(isinstance(x, int) for x in b)]
+                li = len(d._lead_in) if all(isinstance(x, int) for x in d._lead_in) else 0
+                lo = len(d._lead_out) if all(isinstance(x, int) for x in d._lead_out) else 0
+                if len(bt) == len(d._bursts) and 2 <= len(bt) <= 4 and not d._middle_timings and all(b[0] > 0 > b[1] for b in bt):     # pulse distance/width only: a bi-phase symbol is not a slice of the merged frame
+                    spots = list(range(li, n - lo - 1, 2))
+                    if len(spots) > 80 and not (ctx.thorough or d.name in focus):
+                        spots = r.sample(spots, 80)
+                    bps = {2: 1, 4: 2}.get(len(bt), 1)
+                    for i in spots:
+                        bit = ((i - li) // 2) * bps
+                        fld = next((k_ for k_, a_, b_ in d._parameters if a_ <= bit <= b_), None)
+                        if fld is None:
+                            continue
+                        for b in bt:
+                            if intact[i:i + 2] != b and [intact[i], intact[i + 1]] in bt:
+                                # named like the keyword-field substitutions, so that one defect has one description
+                                f2 = intact[:i] + b + intact[i + 2:]
+                                if d._lead_out and d._lead_out[-1] > 0 and f2[-1] < 0:
+                                    # fixed frame period: the trailing gap is what is left of the period (as _build_packet computes it)
+                                    rest = sum(abs(x) for x in f2[:-1])
+                                    if rest >= d._lead_out[-1]:
+                                        continue
+                                    f2 = f2[:-1] + [rest - d._lead_out[-1]]
+                                corrupted.append(('substitute %s symbol@%d' % (fld, i), [f2]))
                 corrupted.append(('lead-in x0.5', [[intact[0] // 2] + intact[1:]]))
                 corrupted.append(('lead-in x2', [[intact[0] * 2] + intact[1:]]))
             names = list(p)
